@@ -186,4 +186,45 @@ theorem append_eq (arr : List Byte) (m : Msg) : m.append arr = Flat.append arr m
     have : m.base = [] := List.eq_nil_of_length_eq_zero (by omega)
     simp [this]
 
+/- ---------------------------------------------------------------- append with allocation failures -/
+
+/-- whatever happens, the buffer content only grows at its end -/
+theorem appendLoop_prefix (failAt : Nat) (fs : List Frag) (cap : Option Nat) (cur : List Byte) (n : Nat) :
+    ∃ x, (Msg.appendLoop failAt fs cap cur n).2.1 = cur ++ x := by
+  induction fs generalizing cap cur n with
+  | nil => exact ⟨[], by simp [Msg.appendLoop]⟩
+  | cons f fs ih =>
+    unfold Msg.appendLoop
+    by_cases h0 : f.length = 0
+    · simp only [h0, if_true]; exact ih cap cur n
+    · simp only [h0, if_false]
+      by_cases hn : Msg.needAlloc cap cur.length f.length = true
+      · simp only [hn, if_true]
+        by_cases hf : n + 1 = failAt
+        · simp only [hf, if_true]; exact ⟨[], by simp⟩
+        · simp only [hf, if_false]
+          obtain ⟨x, hx⟩ := ih (some (Msg.bufCap (cur.length + f.length))) (cur ++ f) (n + 1)
+          exact ⟨f ++ x, by rw [hx]; simp⟩
+      · simp only [hn, if_false, Bool.false_eq_true]
+        obtain ⟨x, hx⟩ := ih cap (cur ++ f) n
+        exact ⟨f ++ x, by rw [hx]; simp⟩
+
+/-- without a failing allocation every fragment arrives -/
+theorem appendLoop_ok (fs : List Frag) (cap : Option Nat) (cur : List Byte) (n : Nat) :
+    (Msg.appendLoop 0 fs cap cur n).1 = true ∧ (Msg.appendLoop 0 fs cap cur n).2.1 = cur ++ fs.flatten := by
+  induction fs generalizing cap cur n with
+  | nil => simp [Msg.appendLoop]
+  | cons f fs ih =>
+    unfold Msg.appendLoop
+    by_cases h0 : f.length = 0
+    · have : f = [] := List.eq_nil_of_length_eq_zero h0
+      simp only [h0, if_true]
+      simpa [this] using ih cap cur n
+    · simp only [h0, if_false, Nat.add_one_ne_zero]
+      by_cases hn : Msg.needAlloc cap cur.length f.length = true
+      · simp only [hn, if_true]
+        simpa using ih (some (Msg.bufCap (cur.length + f.length))) (cur ++ f) (n + 1)
+      · simp only [hn, if_false, Bool.false_eq_true]
+        simpa using ih cap (cur ++ f) n
+
 end Mpt
